@@ -7,6 +7,7 @@ import (
 
 	"pgregory.net/rapid"
 
+	"verif/harness/internal/cbpf"
 	"verif/harness/internal/ev"
 	"verif/harness/internal/gen"
 	"verif/harness/internal/model"
@@ -438,4 +439,106 @@ func distClass(d int) string {
 func TestC04Guards(t *testing.T) {
 	ev.Prop(t, "C04", "policy-events", drawC04, checkC04)
 	inconclusiveIfMostlyRejected("C04")
+}
+
+// ---- complete sweep of all 2^32 syscall numbers (thorough tier) ----
+
+type c01SweepCase struct {
+	Policy spec.Policy `json:"policy"`
+	Args   [6]uint64   `json:"args"`
+	From   uint32      `json:"from"`
+	To     uint32      `json:"to"`
+}
+
+func checkC01Sweep(raw json.RawMessage) (ev.Result, error) {
+	var c c01SweepCase
+	if err := json.Unmarshal(raw, &c); err != nil {
+		return ev.Result{}, ev.Inconclusivef("bad case: %v", err)
+	}
+	p := &c.Policy
+	cp, cerr, pan := compilePolicy(p)
+	if pan != nil || cerr != nil {
+		return ev.Result{Classes: []string{"rejected-by-compiler"}}, nil
+	}
+	if err := cp.encode(); err != nil {
+		return ev.Result{}, fmt.Errorf("program does not encode: %v", err)
+	}
+	// decision table: listed numbers decided by the model, everything else default (x32 range on x86_64: ENOSYS)
+	own := oracle.ArchID(p.Arch)
+	listed := map[uint32]uint32{}
+	for _, g := range p.Groups {
+		for _, n := range g.Names {
+			nr, _ := model.Number(p.Arch, n)
+			listed[nr] = 0
+		}
+		for _, ce := range g.Conds {
+			nr, _ := model.Number(p.Arch, ce.Name)
+			listed[nr] = 0
+		}
+	}
+	for nr := range listed {
+		w, _, err := model.Decide(p, spec.Event{Arch: own, Nr: nr, Args: c.Args})
+		if err != nil {
+			return ev.Result{}, ev.Inconclusivef("model: %v", err)
+		}
+		listed[nr] = w
+	}
+	def := model.Ret(p.Default)
+	x32 := oracle.Const("__X32_SYSCALL_BIT")
+	enosys := oracle.Const("SECCOMP_RET_ERRNO") | oracle.Const("ENOSYS")
+	want := func(nr uint32) uint32 {
+		if p.Arch == "x86_64" && nr >= x32 {
+			return enosys
+		}
+		if w, ok := listed[nr]; ok {
+			return w
+		}
+		return def
+	}
+	e := spec.Event{Arch: own, Args: c.Args}
+	var bad error
+	err := cbpf.SweepNr(cp.raw, e.Words(hostOrder()), c.From, c.To, want, func(nr, got uint32) bool {
+		bad = fmt.Errorf("syscall number %d (%#x) with arguments %#x: filter returns %#x, policy demands %#x (complete sweep of [%#x, %#x], program of %d instructions)", nr, nr, c.Args, got, want(nr), c.From, c.To, len(cp.raw))
+		return true
+	})
+	if err != nil {
+		return ev.Result{}, fmt.Errorf("sweep: %v", err)
+	}
+	if bad != nil {
+		return ev.Result{}, bad
+	}
+	n := int(uint64(c.To) - uint64(c.From) + 1)
+	return ev.Result{Classes: []string{"complete-nr-range-sweep", "arch:" + p.Arch}, NonTrivial: true, Sub: n, SubNonTrivial: n}, nil
+}
+
+// TestC01Sweep: for one generated policy per architecture every 32-bit syscall
+// number is executed (each shard takes 1/nshards of the range).
+func TestC01Sweep(t *testing.T) {
+	ev.Register("C01", "nr-sweep", checkC01Sweep)
+	nShards, idx := shardInfo()
+	seed := int(shardSeed()/1000003) % 100000 // the same policies in every shard of a run
+	span := uint64(1<<32) / uint64(nShards)
+	total := 0
+	for ai, a := range oracle.Arches {
+		g := rapid.Custom(func(t *rapid.T) spec.Policy {
+			prof := []gen.Profile{gen.Small, gen.CondHeavy, gen.NamesOnly}[rapid.IntRange(0, 2).Draw(t, "profile")]
+			return gen.Policy(t, a, gen.Opts{Profile: prof, MaxInsns: 300})
+		})
+		p := g.Example(seed*7 + ai)
+		from := uint64(idx) * span
+		to := from + span - 1
+		if idx == nShards-1 {
+			to = 1<<32 - 1
+		}
+		r := gen.NewRng(uint64(seed) + uint64(ai))
+		c := c01SweepCase{Policy: p, From: uint32(from), To: uint32(to)}
+		for i := range c.Args {
+			c.Args[i] = gen.Boundary[r.Intn(len(gen.Boundary))]
+		}
+		if !ev.CheckOne(t, "C01", "nr-sweep", c, checkC01Sweep) {
+			return
+		}
+		total += int(to - from + 1)
+	}
+	ev.Exhaustive("C01", "all 2^32 syscall numbers for one policy per architecture (this shard's part)", total)
 }
